@@ -51,7 +51,11 @@ def main():
             rc, o = sh('timeout 1800 /venv/bin/python -m pytest -q -p no:cacheprovider --timeout=900 tests/ -x -q', env=env, cwd=wt)
             out['suite'] = rc
         env2 = dict(os.environ, VERIF_REPO=wt)
+        evp = os.path.join(V, 'evidence', prop + '.json')
+        saved = open(evp).read() if os.path.exists(evp) else None
         rc, o = sh('timeout 3000 ./check %s --tier %s' % (prop, tier), env=env2, cwd=V)
+        if saved is not None:
+            open(evp, 'w').write(saved)       # evidence must come from runs against /repo itself
         out['check_rc'] = rc
         lines = [l for l in o.split('\n') if l.startswith('VIOLATION') or l.startswith('  stage')]
         out['violations'] = lines[:6]
